@@ -54,7 +54,8 @@ def coords(shape):
 
 
 def work(item):
-    op, nprocs, iota_mode, canary = item
+    op, nprocs, iota_mode, canary = item[:4]
+    SHAPE = item[4] if len(item) > 4 else globals()['SHAPE']
     res = H.worker_result()
     m = dist.mods()
     adv = H.repo_import('pygyro.advection.advection')
@@ -69,7 +70,7 @@ def work(item):
     symx.DIV_ZERO = 'poison'
     nr, nq, nz, nv = SHAPE
     r, q, z, v = coords(SHAPE)
-    twists = [Fr(0)] * nr if iota_mode == 'zero' else [Fr(3, 4), Fr(5, 12), Fr(8, 15)][:nr]
+    twists = [Fr(0)] * nr if iota_mode == 'zero' else [[Fr(3, 4), Fr(5, 12), Fr(8, 15), Fr(0)][i % 4] for i in range(nr)]
     nranks = int(np.prod(nprocs))
     nprocs_box = [tuple(nprocs)]
     st = {}
@@ -191,7 +192,14 @@ def work(item):
             if kind == 'abort' and not val.inconclusive:
                 continue
             res['obligations'] += 1
-            res['inconclusive'].append('%s: %s %r' % (op, kind, val))
+            # the recorders assume the present calling convention between the grid-level loop and its per-slice kernel; when the
+            # symbolic run cannot finish, the real float operator (distributed against one process) may still decide
+            prob = float_replay(allm, item, [])
+            if prob:
+                res['violations'].append(('wiring:%s' % op, '%s (witness from the float run; symbolic run: %s %s)' % (prob, kind, str(val)[:100]),
+                                          dict(kind='wiring', operator=op, nprocs=list(nprocs), iota=iota_mode, concrete=prob, canary=bool(canary))))
+            else:
+                res['inconclusive'].append('%s: %s %r' % (op, kind, val))
             continue
         eta, consts, dt = st['eta'], st['consts'], SReal(st['dt'])
         bad, where = [], []
@@ -311,7 +319,8 @@ def work(item):
 
 def float_replay(allm, item, hits):
     """concrete confirmation on the real float code: distributed run vs. serial run of the same real operator"""
-    op, nprocs, iota_mode, _ = item
+    op, nprocs, iota_mode, _ = item[:4]
+    SHAPE = item[4] if len(item) > 4 else globals()['SHAPE']
     m = allm
     adv = m['adv']
     numenv.disable()
@@ -320,7 +329,7 @@ def float_replay(allm, item, hits):
         nr, nq, nz, nv = SHAPE
         r, q, z, v = [np.array([float(x) for x in a]) for a in coords(SHAPE)]
         eta = [r, q, z, v]
-        twists = [0.0] * nr if iota_mode == 'zero' else [0.75, 5 / 12, 8 / 15][:nr]
+        twists = [0.0] * nr if iota_mode == 'zero' else [[0.75, 5 / 12, 8 / 15, 0.0][i % 4] for i in range(nr)]
 
         class FC:
             R0 = float(R0)
@@ -457,6 +466,9 @@ def main():
         for op in ('flux', 'vpar', 'vpar_keep', 'pol', 'pol_keep', 'init_flux_surface', 'init_poloidal', 'init_v_parallel'):
             for iota in (('zero', 'radial') if op == 'flux' else ('radial',)):
                 items.append((op, grid, iota, None))
+    # radial blocks of different sizes with more than one radius on the later rank (5 radii over 2 processes: 3 + 2)
+    items.append(('flux', (2, 1), 'radial', None, (5, 4, 7, 2)))
+    items.append(('vpar', (2, 1), 'radial', None, (5, 4, 7, 2)))
     for grid in ([(1, 2), (2, 2)] if quick else [(1, 2), (2, 2), (1, 3), (2, 3)]):
         for order in ((3, 6) if quick else (2, 3, 4, 5, 6)):
             if order + 1 < SHAPE[2]:
